@@ -2,7 +2,7 @@
    Only ExtrOcamlBasic's directives are used; numbers stay as extracted inductives. *)
 Require Extraction.
 Require Import ExtrOcamlBasic.
-From RxModel Require Import Derived Ops2 Subject GroupBy Flatten Timed Async Subscr Finalize.
+From RxModel Require Import Derived Ops2 Subject GroupBy Flatten Timed Async Subscr Finalize Fin.
 From RxSpec Require Import DerivedSpec Ops2Spec SubjectSpec BehaviorSpec GroupBySpec FlattenSpec TimedSpec SubscrSpec FinalizeSpec.
 Extraction Language OCaml.
 Extraction "model.ml"
@@ -16,4 +16,5 @@ Extraction "model.ml"
   run_timed raw_ok timed_ok prompt_case remaining closed_sound_ok
   run_async yields pendings
   crun cstate0 alg_ok
-  run_finalize_segs fin_ok fspec0 rrun.
+  run_finalize_segs fin_ok fspec0 rrun
+  run_iter_case run_stream_case run_interval_case.
